@@ -357,7 +357,10 @@ func runWorkers(rc runCfg, tag string) []*workerRun {
 				wr.fatals = append(wr.fatals, f)
 				wr.restarts++
 				if wr.restarts > 400 {
-					die(2, "worker %d: more than 400 fatal ends; giving up\n%s", w, stderr.String())
+					// give up on the rest of this shard (reported: not exhaustive) rather than on the whole check
+					wr.stats.DeadlineHit = true
+					wr.stats.Notes = append(wr.stats.Notes, fmt.Sprintf("worker %d abandoned its shard after 400 abnormal ends", w))
+					return
 				}
 				after = fmt.Sprintf("%d:%d:%d", f.Pass, f.Input, f.Cfg)
 			}
